@@ -43,3 +43,10 @@ claim('C01', 'bounded symbolic execution of the real DiffXWriter followed by the
       'symbolic probe preambles. z3 decides record-by-record equality with norm().',
       BASE_NOTE + ' Metadata is concrete (catalogue); longer histories by composition with C02/C03/C04.',
       'DESIGN.md section 4, C01')
+
+claim('C10', 'z3 query over the finite transition relation read from the current source + bounded symbolic execution of the real reader on valid walks followed by a header with symbolic id bytes',
+      'The transition table of the current source is compared with the specification relation by a solver query over '
+      'symbolic (prev,next) in 24x24 ids; the real reader is run on every valid walk of the hierarchy (up to 4 sections '
+      'quick / 6 thorough) followed by a header whose name bytes (3..8) and dot count (0..4) are symbolic: z3 decides '
+      'accepted <=> allowed by the specification, record id/level, and that rejection is a DiffXParseError.',
+      BASE_NOTE, 'DESIGN.md section 4, C10; section 3 (REF_HIER)')
